@@ -33,6 +33,10 @@ type c16In struct {
 	Args  []c16Arg `json:"args,omitempty"`
 	Probe string   `json:"probe,omitempty"` // "" | echo | filter
 	Names []string `json:"names,omitempty"` // Go-quoted values of column name, for probe=filter
+	// Reuse: the statement is prepared once (NewQuery) and sanitized twice through the SAME parameter slice: first
+	// holding decoy strings, then refilled in place with Args. The second result is the observation — a prepared
+	// Command must not remember anything about an earlier call.
+	Reuse bool `json:"reuse,omitempty"`
 }
 
 type propC16 struct{}
@@ -250,9 +254,15 @@ func (propC16) Generate(r *Rand, tier string) []Case {
 		"SELECT $18446744073709551617 AS v FROM dual", "SELECT $99999999999999999999 AS v FROM dual", "SELECT $9223372036854775808 AS v FROM dual",
 		"SELECT '$1' AS v FROM dual", "SELECT `$1` AS v FROM dual", "SELECT 1 AS v FROM dual -- $1", "SELECT 1 AS v FROM dual # $1", "SELECT 1 /* $1 */ AS v FROM dual", "SELECT 1 /*! $1 */ AS v FROM dual",
 		"SELECT 'a\\'$1' AS v FROM dual", "SELECT \"a\\\"$1\" AS v FROM dual", "SELECT e'a\\'$1' AS v FROM dual", "SELECT /* /* */ $1 AS v FROM dual",
-		"SELECT 3--$1 AS v FROM dual", "SELECT 1 AS v FROM dual -- a\r $1 \n", "SELECT 1 AS v FROM dual -- a\\\n WHERE 1 = $1", "SELECT 1 AS v FROM dual // $1"}
+		"SELECT 3--$1 AS v FROM dual", "SELECT 1 AS v FROM dual -- a\r $1 \n", "SELECT 1 AS v FROM dual -- a\\\n WHERE 1 = $1", "SELECT 1 AS v FROM dual // $1",
+		// a repeated placeholder next to a skipped one: the counts agree, yet an argument is unused
+		"SELECT $2 AS v, $2 AS w FROM dual", "SELECT $1 AS a, $1 AS b, $3 AS c FROM dual", "SELECT $3 AS a, $3 AS b, $3 AS c FROM dual",
+		"SELECT $1 AS a, $2 AS b, $2 AS c FROM dual", "SELECT $2 AS a, $3 AS b, $3 AS c, $2 AS d FROM dual",
+		// a minus directly in front of a "-- " comment (odd and even runs of dashes), the operand on the next line
+		"SELECT 5 --- $1\n 2 AS v FROM dual", "SELECT 5 ----- $1\n 2 AS v FROM dual", "SELECT 5 ---- $1\n AS v FROM dual", "SELECT 5 ---$1\n AS v FROM dual",
+		"SELECT 5 - -- $1\n 2 AS v FROM dual", "SELECT $1 --- $2\n 2 AS v FROM dual", "SELECT 5 ---\t$1\n 2 AS v FROM dual"}
 	for _, t := range errT {
-		for n := 0; n <= 3; n++ {
+		for n := 0; n <= 4; n++ {
 			var args []c16Arg
 			for i := 0; i < n; i++ {
 				args = append(args, c16StrArg(fmt.Sprintf("a%d", i)))
@@ -278,7 +288,17 @@ func (propC16) Generate(r *Rand, tier string) []Case {
 			args = append(args, a)
 			tags = append(tags, "arg:"+a.K)
 		}
-		add(c16In{Kind: "san", T: c16Q(t), Args: args}, tags, n > 0 && k > 0)
+		in := c16In{Kind: "san", T: c16Q(t), Args: args}
+		if r.Chance(12) {
+			in.Reuse = true
+			tags = append(tags, "prepared-command-reused")
+		}
+		add(in, tags, n > 0 && k > 0)
+	}
+	// the echo probe through a reused prepared command: the value that comes back is the second call's argument
+	for i := 0; i < 40*scale; i++ {
+		a := c16RandArg(r)
+		add(c16In{Kind: "san", T: c16Q(echoT), Args: []c16Arg{a}, Probe: "echo", Reuse: true}, []string{"prepared-command-reused", "probe:echo", "arg:" + a.K}, true)
 	}
 
 	// 5. echo / filter probes with random strings
@@ -643,7 +663,26 @@ func (propC16) Observe(raw json.RawMessage) (Observed, error) {
 	outTerm, outClass, outText := "Panic", "panic", ""
 	func() {
 		defer func() { _ = recover() }()
-		s, err := sanitize.SanitizeSQL(t, goArgs...)
+		var s string
+		var err error
+		if in.Reuse {
+			var cmd *sanitize.Command
+			cmd, err = sanitize.NewQuery(t)
+			if err == nil {
+				params := make([]any, len(goArgs))
+				for i := range params {
+					params[i] = fmt.Sprintf("decoy-%d", i)
+				}
+				func() {
+					defer func() { _ = recover() }()
+					cmd.Sanitize(params...)
+				}()
+				copy(params, goArgs)
+				s, err = cmd.Sanitize(params...)
+			}
+		} else {
+			s, err = sanitize.SanitizeSQL(t, goArgs...)
+		}
 		if err != nil {
 			outTerm, outClass = "Err", "error"
 			return
